@@ -42,6 +42,29 @@ def gen_cases(chk, quick):
     return cases
 
 
+def gen_contention(chk, quick):
+    """Many step threads reserving at the same time on a full pool, many repetitions (seed C13-2: an optimistic
+    fetch_sub/undo on an unsigned counter wraps for nanoseconds; a second reservation landing in the gap believes it got a
+    slot and afterwards every waiting step starts).  The chance per run grows with the number of polling threads squared and
+    with the time they poll; measured on the seeded binary: 0.4-0.5 per run of 12 independent steps on an idle machine,
+    about 0.11 with 16 busy loops next to it, so 72 such runs miss with probability < 1e-3 even under load.  The commands
+    only sleep: 16 pipelines run in parallel."""
+    rng = chk.rng
+    cases = []
+    n12, n8, ndag = (72, 12, 12) if quick else (200, 40, 40)
+    for r in range(n12):
+        cases.append(sc.mk_case(sc.mk_spec(12, []), 1, [{'sleep_ms': 150} for _ in range(12)], label=f'contention/12x pool1 #{r}'))
+    for r in range(n8):
+        k = rng.choice([6, 7, 8])
+        cases.append(sc.mk_case(sc.mk_spec(k, []), 2, [{'sleep_ms': 150} for _ in range(k)], label=f'contention/{k}x pool2 #{r}'))
+    for r in range(ndag):
+        w = 10
+        edges = [(i, 0, 'step') for i in range(1, w + 1)] + [(w + 1, i, 'step') for i in range(1, w + 1)]
+        behav = [{'sleep_ms': 20}] + [{'sleep_ms': 120} for _ in range(w)] + [{}]
+        cases.append(sc.mk_case(sc.mk_spec(w + 2, edges), 1 + r % 2, behav, label=f'contention/level of {w} #{r}'))
+    return cases
+
+
 def gen_unspawnable(chk, quick):
     """outcome class "the command cannot be spawned" (popen/exec error after the slot was reserved): the slot must come
     back exactly once.  One or two unspawnable steps compete with a gate step for the pool; several steps wait behind
@@ -77,10 +100,13 @@ def run(chk):
     cases = gen_cases(chk, quick)
     chk.extra['rule'] = ('k independent sleeping steps for k=2..%d with pools 1..k+1; root + w parallel steps + sink (w=3..%d) with every pool 1..w, '
                          'edges realised as explicit step dependencies or output-file/dependency-file or output-file/glob pairs, a few failing steps; '
+                         'CONTENTION stream (hook-free binary, 16 pipelines in parallel): 72 (quick) / 200 (thorough) runs of 12 independent steps sleeping 150 ms with pool 1, '
+                         '12 / 40 runs of 6-8 independent steps with pool 2, 12 / 40 runs of root + level of 10 + sink with pools 1 and 2; '
                          'random DAGs on 3..%d steps with random pools and when-options; steps whose command cannot be SPAWNED (NUL byte in an exported line_items variable, exec EINVAL after the slot was reserved): one or two of them competing with a gate step, six steps waiting behind the gate, pools 1 and 2, and as a dependency of a by_dependencies and of an always step (repeated). Every case is run once on the hook-free binary (journal oracle) '
                          'and 3 (quick) / 6 (thorough) times on the hook build with different seeded schedule perturbations (journal oracle + trace validated against the model). '
                          'Non-trivial: >= 2 steps, an edge or pool < number of steps, at least one command executed.') % ((6, 4, 6) if quick else (8, 6, 8))
     sc.run_family(ctx, 'pool/plain', cases, OWN, hook=False)
+    sc.run_family(ctx, 'contention/plain', gen_contention(chk, quick), OWN, hook=False, workers=16, timeout=30, shrink=False)
     if ctx.xvc_hook:
         hooked = []
         for rep in range(3 if quick else 6):          # several schedules per pipeline
